@@ -1003,8 +1003,10 @@ def lemmas():
         out.append((f"float64-in-[0,1]->{u}-file->float64-is-within-one-step-1/{m}-below-the-original-when-the-cast-truncates", [trunc, v >= 0, v <= 1],
                     z3.And(q >= 0, q <= m, back <= v, v - back < B.rq(1, m))))
 
-    # the rasteriser's file (ToImageStack.save_tif): Z pages F_z of shape (X, Y) written contiguously with axes ZXY are ONE series S[z, x, y] = F_z[x, y]
-    # (tifffile's behaviour: hypothesis); TiffImageStack's clauses for a 3-D file with axes ZXY then give (X, Y, Z, 1) with voxel [x, y, z, 0] = F_z[x, y]
+    # the rasteriser's file (ToImageStack.save_tif): Z >= 2 pages F_z of shape (X, Y) written contiguously with axes ZXY are ONE series S[z, x, y] = F_z[x, y]
+    # (tifffile's behaviour: hypothesis, cross-checked natively); TiffImageStack's clauses for a 3-D file with axes ZXY then give (X, Y, Z, 1) with voxel
+    # [x, y, z, 0] = F_z[x, y].  FINDING (bounded clause ToImageStack.save_tif/raster-file-roundtrip, replayed natively): for Z = 1 tifffile reports a 2-D
+    # series with axes 'YX', and TiffImageStack / NDArrayImageStack refuse it (AssertionError) - a tree that is one slice thick cannot be read back.
     F = z3.Function("rt2_frame", I, I, I, Rs)
     S3 = z3.Function("rt2_series", I, I, I, Rs)
     ssh = [Zn, Xn, Yn]
@@ -1020,6 +1022,6 @@ def lemmas():
         return Rd(*ix) == rdx(S3(*fx))
 
     h_read = B.forall_idx(rsh, rd3)
-    out.append(("rasterised-stack-saved-page-by-page-with-axes-ZXY-reads-back-as-(X,Y,Z,1)-voxel-[x,y,z,0]-from-page-z-[x,y]", [h_series, h_read],
+    out.append(("rasterised-stack-of-Z>=2-slices-saved-page-by-page-with-axes-ZXY-reads-back-as-(X,Y,Z,1)-voxel-[x,y,z,0]-from-page-z-[x,y]", [Zn >= 2, h_series, h_read],
                 z3.And(rsh[0] == Xn, rsh[1] == Yn, rsh[2] == Zn, rsh[3] == 1, B.forall_idx([Xn, Yn, Zn, 1], lambda ix: Rd(*ix) == rdx(F(ix[2], ix[0], ix[1]))))))
     return out
